@@ -295,6 +295,59 @@ def worker_e2e(rec, shard, nshards, length, two_marker_tps, all_positions, seed)
             rec.sample({"seam": "end-to-end", "history": hist_repr(hist)})
 
 
+REUSE_FILES = {
+    "open-A": [("1.0", "(Def/A, Onset)"), ("2.0", "Red")],
+    "offset-A": [("1.0", "Red"), ("2.0", "(Def/A, Offset)")],
+    "inset-A": [("1.0", "(Def/a, Inset)")],
+    "open-Bx": [("1.0", "(Def/B/x, Onset)")],
+    "offset-Bx": [("1.0", "(Def/B/X, Offset)")],
+    "closed-A": [("1.0", "(Def/A, Onset)"), ("2.0", "(Def/A, Offset)")],
+    "no-onset-column": [(None, "Red"), (None, "Blue")],
+}
+
+
+def validator_reuse(ctx, depth):
+    """E2: every sequence of files up to depth through ONE SpreadsheetValidator: each file is judged as by a fresh validator
+    (scopes left open by one file are not open in the next)."""
+    import pandas as pd
+    from hed import load_schema_version
+    from hed.models.tabular_input import TabularInput
+    from hed.models.definition_dict import DefinitionDict
+    from hed.validator.spreadsheet_validator import SpreadsheetValidator
+    rec = ctx.rec
+    schema = load_schema_version("8.3.0")
+    dd = DefinitionDict(DEFS, schema)
+
+    def data(name):
+        rows = REUSE_FILES[name]
+        cols = {"HED": [r[1] for r in rows]}
+        if rows[0][0] is not None:
+            cols = {"onset": [r[0] for r in rows], "HED": [r[1] for r in rows]}
+        return TabularInput(pd.DataFrame(cols))
+
+    def verdict(v, name):
+        return sorted((i["code"], i.get("ec_row")) for i in v.validate(data(name), def_dicts=dd, name=name))
+    fresh = {n: verdict(SpreadsheetValidator(schema), n) for n in REUSE_FILES}
+    names = list(REUSE_FILES)
+    for d in range(2, depth + 1):
+        for seq in itertools.product(names, repeat=d):
+            rec.n("evaluations")
+            rec.n("transitions", d)
+            rec.n("distinct_nontrivial")
+            v = SpreadsheetValidator(schema)
+            for step, n in enumerate(seq):
+                try:
+                    got = verdict(v, n)
+                except Exception as e:
+                    rec.violation("C10:reuse:raises:" + type(e).__name__, sequence=list(seq), step=step, error=repr(e)[:200])
+                    break
+                if got != fresh[n]:
+                    rec.violation("C10:reuse:verdict-depends-on-files-validated-before", sequence=list(seq), step=step,
+                                  file=REUSE_FILES[n], fresh=fresh[n], got=got)
+                    break
+            rec.outcome("reuse")
+
+
 def worst_kind(combo):
     ks = [k for k, _ in combo]
     for k in ("mixed-delay-first", "mixed-delay-second", "delay-shifted-ms", "delay-shifted", "equal-onset-rows"):
@@ -315,6 +368,7 @@ def run(ctx):
                                "names": NAMES, "marks": MARKS}
     ctx.parallel(worker_narrow, l1, l2, ctx.seed)
     ctx.parallel(worker_e2e, l3, e2e_two, ctx.thorough, ctx.seed)
+    validator_reuse(ctx, ctx.pick(2, 3))
     ctx.rec.counts["states"] = len(ctx.rec.states)
 
 
